@@ -32,6 +32,7 @@ type g14 struct {
 	loopVars  map[types.Object]ast.Expr // loop var -> bound expr
 	getIndex  map[*types.Func]bool      // callee getIndex functions already verified in range
 	visiting  map[types.Object]bool
+	depth     int
 }
 
 func isURLsExpr(info *types.Info, e ast.Expr) bool {
@@ -98,7 +99,7 @@ func (g *g14) inRange(e ast.Expr, depth int) bool {
 		g.visiting[o] = true
 		defer delete(g.visiting, o)
 		for _, rhs := range as {
-			if !g.inRange(rhs, depth+1) {
+			if !g.inRange(rhs, depth+1) && !g.clampedAfter(o, rhs) {
 				return false
 			}
 		}
@@ -162,6 +163,50 @@ func (g *g14) inRange(e ast.Expr, depth int) bool {
 	return false
 }
 
+// clampedAfter: the assignment `o = rhs` is followed, in the same block, by `if o >= n { ...; o = 0 }`
+// (the wrap-around of a counter written in place): whatever rhs was, o is below n afterwards.
+func (g *g14) clampedAfter(o types.Object, rhs ast.Expr) bool {
+	ok := false
+	ast.Inspect(g.body, func(n ast.Node) bool {
+		blk, isB := n.(*ast.BlockStmt)
+		if !isB || ok {
+			return true
+		}
+		for i, s := range blk.List {
+			as, isA := s.(*ast.AssignStmt)
+			if !isA || len(as.Lhs) != len(as.Rhs) {
+				continue
+			}
+			hit := false
+			for k, l := range as.Lhs {
+				if identObj(g.info, l) == o && as.Rhs[k] == rhs {
+					hit = true
+				}
+			}
+			if !hit || i+1 >= len(blk.List) {
+				continue
+			}
+			ifs, isI := blk.List[i+1].(*ast.IfStmt)
+			if !isI {
+				continue
+			}
+			be, isBe := ast.Unparen(ifs.Cond).(*ast.BinaryExpr)
+			if !isBe || be.Op != token.GEQ || identObj(g.info, be.X) != o || !g.isN(be.Y) {
+				continue
+			}
+			for _, bs := range ifs.Body.List {
+				if a2, isA2 := bs.(*ast.AssignStmt); isA2 && len(a2.Lhs) == 1 && len(a2.Rhs) == 1 && identObj(g.info, a2.Lhs[0]) == o {
+					if c, isC := intConst(g.info, a2.Rhs[0]); isC && c == 0 {
+						ok = true
+					}
+				}
+			}
+		}
+		return true
+	})
+	return ok
+}
+
 func (g *g14) prepare() {
 	g.nObjs, g.candSlice, g.countOf = map[types.Object]bool{}, map[types.Object]bool{}, map[types.Object]types.Object{}
 	g.assigns, g.loopVars, g.visiting = map[types.Object][]ast.Expr{}, map[types.Object]ast.Expr{}, map[types.Object]bool{}
@@ -191,6 +236,87 @@ func (g *g14) prepare() {
 		return true
 	})
 	// candidate slices: []int locals whose every append adds an n-bounded loop variable
+	cands := map[types.Object]bool{}
+	bad := map[types.Object]bool{}
+	ast.Inspect(g.body, func(n ast.Node) bool {
+		as, ok := n.(*ast.AssignStmt)
+		if !ok || len(as.Lhs) != 1 || len(as.Rhs) != 1 {
+			return true
+		}
+		call, ok := ast.Unparen(as.Rhs[0]).(*ast.CallExpr)
+		if !ok || !IsBuiltin(g.info, call, "append") {
+			return true
+		}
+		s := identObj(g.info, as.Lhs[0])
+		if s == nil || identObj(g.info, call.Args[0]) != s {
+			return true
+		}
+		cands[s] = true
+		for _, a := range call.Args[1:] {
+			o := identObj(g.info, a)
+			b, isLoop := g.loopVars[o]
+			if o == nil || !isLoop || !g.isN(b) {
+				bad[s] = true
+			}
+		}
+		return true
+	})
+	for s := range cands {
+		if !bad[s] {
+			g.candSlice[s] = true
+		}
+	}
+	// a candidate slice produced by a helper of the balancer: S := lb.candidates(n) where the helper
+	// returns a slice that is a candidate slice with respect to its own parameter
+	if g.depth < 1 {
+		ast.Inspect(g.body, func(n ast.Node) bool {
+			as, ok := n.(*ast.AssignStmt)
+			if !ok || len(as.Lhs) != 1 || len(as.Rhs) != 1 {
+				return true
+			}
+			call, ok := ast.Unparen(as.Rhs[0]).(*ast.CallExpr)
+			if !ok {
+				return true
+			}
+			d, cpkg := g.p.calleeDecl(g.info, call)
+			if d == nil || cpkg.TypesInfo != g.info {
+				return true
+			}
+			if tv, ok := g.info.Types[as.Rhs[0]]; !ok || tv.Type.String() != "[]int" {
+				return true
+			}
+			h := &g14{p: g.p, info: g.info, body: d.Body, getIndex: g.getIndex, depth: g.depth + 1}
+			h.prepare()
+			// the helper's n: the parameter that receives an n of the caller
+			params := paramsOf(g.info, d.Type)
+			for i, a := range call.Args {
+				if i < len(params) && params[i] != nil && g.isN(a) {
+					h.nObjs[params[i]] = true
+				}
+			}
+			h.prepare2()
+			okRet, nRet := true, 0
+			ast.Inspect(d.Body, func(m ast.Node) bool {
+				if ret, ok := m.(*ast.ReturnStmt); ok && len(ret.Results) == 1 {
+					nRet++
+					if o := identObj(g.info, ret.Results[0]); o == nil || !h.candSlice[o] {
+						okRet = false
+					}
+				}
+				return true
+			})
+			if okRet && nRet > 0 {
+				if s := identObj(g.info, as.Lhs[0]); s != nil {
+					g.candSlice[s] = true
+				}
+			}
+			return true
+		})
+	}
+}
+
+// prepare2 recomputes the candidate slices after nObjs was extended (parameters bound by the caller).
+func (g *g14) prepare2() {
 	cands := map[types.Object]bool{}
 	bad := map[types.Object]bool{}
 	ast.Inspect(g.body, func(n ast.Node) bool {
